@@ -93,12 +93,19 @@ def worker_main(prop_id, tier, w, nworkers, seed, outfile):
         if hasattr(mod, "account"):
             mod.account(st["extra"], case, oc)
 
+    collect = bool(os.environ.get("VERIF_COLLECT"))
+    st["collected"] = {}
+
     def judge(case, oc):
         """Returns the list of violations not covered by an open known finding."""
         fresh = []
         for sig, text in oc.violations:
             if sig in known:
                 st["known_hits"][sig] = st["known_hits"].get(sig, 0) + 1
+            elif collect:
+                # triage mode: bucket by signature, keep searching
+                b = st["collected"].setdefault(sig, {"n": 0, "text": text, "case": case})
+                b["n"] += 1
             else:
                 fresh.append((sig, text))
         return fresh
@@ -308,6 +315,18 @@ def run_check(prop_id, tier, seed, jobs):
         prop_id, tier, seed, evaluations, len(nontrivial), time.time() - t0))
     if missing:
         print("NOTE: labels never produced in this run: %s" % ", ".join(missing))
+    collected = {}
+    for p in parts:
+        for sig, b in p.get("collected", {}).items():
+            c = collected.setdefault(sig, {"n": 0, "text": b["text"], "case": b["case"]})
+            c["n"] += b["n"]
+    for sig, b in sorted(collected.items()):
+        print("COLLECTED [%s] x%d: %s" % (sig, b["n"], b["text"]))
+        os.makedirs(os.path.join(REPLAY_DIR, prop_id), exist_ok=True)
+        with open(os.path.join(REPLAY_DIR, prop_id, "collected-%s.json" % "".join(ch if ch.isalnum() else "_" for ch in sig)[:60]), "w") as f:
+            json.dump({"property": prop_id, "case": b["case"], "violations": [{"sig": sig, "text": b["text"]}]}, f, indent=1, default=repr)
+    if collected and not violation:
+        return 1
     if violation:
         for v in violation["violations"]:
             print("  violated: [%s] %s" % (v["sig"], v["text"]))
